@@ -51,3 +51,10 @@ Proof. unfold zlen; simpl length; lia. Qed.
 
 Definition list_eqb_Z (a b : list Z) : bool :=
   (Nat.eqb (length a) (length b)) && forallb (fun p => fst p =? snd p) (combine a b).
+
+Lemma skipn_skipn {A} : forall (a b : nat) (l : list A), skipn a (skipn b l) = skipn (b + a) l.
+Proof.
+  intros a b; revert a. induction b as [|b IH]; intros a l; [reflexivity|].
+  destruct l as [|x r]; cbn [skipn plus]; [destruct a; reflexivity|apply IH].
+Qed.
+
